@@ -60,9 +60,9 @@ claim('C05', 'proof',
       'alignment, no inputs on the shifted side, relabel/reorder invariance up to a permutation of blocks. '
       'Correspondence: a recording KoopmanRegressor captures the exact arguments of _fit_regressor (bare and at the '
       'end of random pipelines) and they are compared verbatim with the model on tagged integers.',
-      'Lean kernel + standard axioms; that each regressor\'s coef_ is a function of the multiset of pairs only '
-      '(Gram sums) is checked by the oracle (fit(X) vs fit(Xu,Xs) vs relabelled X), not proved here (C06 proves the '
-      'normal-equation part).',
+      'Lean kernel + standard axioms; the Gram sums G, H are invariant under permutations of the pairs (C05_gram_perm), so '
+      'every regressor that works from them depends on the multiset of pairs only; for the SVD- and LMI-based regressors the '
+      'same is checked by the oracle (fit(X) vs fit(Xu,Xs) vs relabelled X; both routes fit / fit_transform of a pipeline).',
       'Lean 4 proof (list algebra over the episode routing lemmas) + recording-regressor correspondence',
       'DESIGN.md section 5 C05')
 claim('C16', 'proof',
